@@ -20,7 +20,8 @@ SPEC = dict(
                  "file text contains no ESC character: click.echo strips ANSI escape sequences from non-tty output, so "
                  "such a line cannot be shown verbatim by any diff printed through click"],
     required=["dry_ok_and_applied", "multi_file_diffs", "engine:v1", "engine:v2", "dry_failed_nothing_changed",
-              "commit_on_runs", "unaffected_file_cases", "fault_cases", "message_template_cases"],
+              "commit_on_runs", "unaffected_file_cases", "fault_cases", "message_template_cases",
+              "fetch_brings_newer_tag_cases"],
     anchors=[("cli", "_print_diff"), ("v2rewrite", "diff"), ("v1rewrite", "diff"), ("rewrite", "diff_lines"),
              ("v2rewrite", "rewrite_files")],
 )
@@ -109,7 +110,7 @@ def cases(ctx):
     n = ctx.size(1600, 40000)
     for i in range(n):
         yield {"pseed": ctx.rng.getrandbits(48), "legacy": i % 5 == 4, "commit": i % 4 == 0, "unicode": i % 3 == 0,
-               "random_flags": i % 6 == 5, "fault": i % 7 == 3}
+               "random_flags": i % 6 == 5, "fault": i % 7 == 3, "fetch": i % 8 == 4}
     # files whose patterns do not depend on the part that changes (a `series MAJOR.x` line during a --patch bump),
     # intact and with the occurrence destroyed: dry and real run must agree there too
     k = 0
@@ -248,6 +249,16 @@ def run_case(ctx, case):
             fake.set_out("status", "")
             env = fake.env
             ctx.count("commit_on_runs")
+            if case.get("fetch") and not case["legacy"] and not case["random_flags"] and not case.get("fault"):
+                # a remote whose fetch brings a newer version tag: "the same arguments" include the implicit fetch,
+                # so the dry run has to start from the same (fetched) version as the real run
+                fake.set_out("remote", "git@example.org:x/y.git\n")
+                fake.set_out("tag-list", proj.cur_text + "\n")
+                fake.set_out("tag-list.after_fetch", proj.cur_text + "\n" + exp + "\n")
+                fake.set_out("tag-merged", proj.cur_text + "\n")
+                fake.set_out("tag-merged.after_fetch", proj.cur_text + "\n" + exp + "\n")
+                args = [a for a in args if a != "--no-fetch"] + ["--fetch"]
+                ctx.count("fetch_brings_newer_tag_cases")
         before = harness.snapshot(d, meta=True)
         dres = harness.invoke(args + ["--dry"], cwd=d, env=env)
         mid = harness.snapshot(d, meta=True)
@@ -258,7 +269,9 @@ def run_case(ctx, case):
                           f"{harness.diff_snapshots(before, mid)} write-set={sorted(harness.writes_inside(dres, d))}",
                           observed=desc)
         if fake:
-            muts = [m for m in map(harness.mutating_kind, fake.events()) if m]
+            # `fetch` only syncs remote-tracking data and is part of "the same arguments" for both runs (it decides
+            # the start version), so it is not counted as mutating here: add/commit/tag/push and hooks are
+            muts = [m for m in map(harness.mutating_kind, fake.events()) if m and m != "fetch"]
             if muts:
                 ctx.violation("other:dry_run_issued_vcs_or_hook", f"{args} --dry: {muts}", observed=desc)
             fake.reset()
